@@ -2,7 +2,7 @@ SPECIFICATION SSpec
 CONSTANTS
   Variants = {"deadline"}
   Relays = {1, 2, 3}
-  ProvSet <- ScenProvSet
+  FetchSet <- ScenFetchSet
   Values = {0, 1, 2, 3}
   CfgSet = {}
   TableSet = {"A", "B"}
@@ -17,5 +17,6 @@ CONSTANTS
   TickWeight = 1
   DeliverWeight = 3
   StartWeight = 2
+  Family = "fake"
 INVARIANTS Emit WinnerIsArgmax ProvidersOfferedWinner NoWinnerIffNone CacheRight
 CHECK_DEADLOCK FALSE
